@@ -28,6 +28,42 @@ claim("C20",
       "inductive step reads the private fields named in the property's anchors",
       "DESIGN.md 4/C20")
 
+claim("C15",
+      "automated_equation is executed with phi and every u_v as solver reals; 'result = brute-force bond-percolation "
+      "expectation' is decided by z3 (QF_NRA) as a polynomial identity for every connected motif on <=5 (quick) / <=6 "
+      "(thorough) vertices x every focal vertex, plus cycles and K6; call histories on one evaluator with fresh symbols "
+      "per call expose cache leaks",
+      "bounded by motif size; floats are exact rationals (rounding outside); oracle = independent 2^|E| enumeration",
+      "DESIGN.md 4/C15")
+claim("C16",
+      "clique_equation (tau-1 distinct symbolic H), chordless_cycle_equation and the connected-subgraph counter are "
+      "proved identical as polynomials to independent oracles; Q(n,k)/QQ(n,k) are checked for all k at once through "
+      "the component-decomposition identity in a real variable",
+      "bounded: tau<=6/8, n<=8/12, Q n<=9/12, QQ n<=5/6, counter substrate <=4/5 vertices; trusts the Harary-Palmer "
+      "decomposition lemma; floats exact",
+      "DESIGN.md 4/C16")
+claim("C18",
+      "bond_percolate is executed with phi and one draw per edge as solver reals; all 2^|E| comparison outcomes are "
+      "explored and on each the result must equal the largest-component fraction of exactly the edges with r_e < phi "
+      "(for all values of the draws), input graph unchanged",
+      "bounded: graphs <=4 (quick) / 5 vertices, <=7 edges; the distributional statement (Bernoulli(phi) per edge, "
+      "Binomial on stars) follows from the per-draw law under the trusted uniformity of random.random(); boundary "
+      "r_e=phi (measure zero) excluded",
+      "DESIGN.md 4/C18")
+claim("C13",
+      "every small annotated network (adjacency bits, edge topologies and annotations are solver variables forked "
+      "exhaustively) is fed to the real extractor three times in a row; every matrix entry is compared with a direct "
+      "edge-end count, plus symmetry, total, row sums and the overall-degree variant",
+      "bounded exhaustive symbolic exploration (n<=4/5 vertices, <=2 topologies, annotation pool of 3); matrices are "
+      "concrete on each path, floats compared to exact rationals at 1e-9",
+      "DESIGN.md 4/C13")
+claim("C14",
+      "forward excess formula, inversion round trip, matrix row sums and mean degree are decided as identities over "
+      "positive symbolic reals (all probabilities / matrix entries are solver variables, key supports are forked), "
+      "for several topology-name lists; clean networks tie the matrix row sums to the empirical jdd",
+      "bounded: <=3/4 keys, <=4 topologies, degrees <=2/3; floats exact; inversion only under its stated precondition",
+      "DESIGN.md 4/C14")
+
 
 def main():
     props = [json.loads(l)["id"] for l in open(os.path.join(ROOT, "properties.jsonl"))]
